@@ -34,7 +34,7 @@ def strategy_(draw):
     case = draw(S.pipeline_case(WEIGHTS, vary=('msa', 'okta', 'sep', 'base'), p_default_prms=0.1,
                                 base_p_default=0.1, anomalies=True, anomaly_negative=False))
     names = sorted(set(r[0] for r in case['rows']))
-    how = draw(st.sampled_from(['reverse', 'swap', 'fresh', 'fresh', 'fresh', 'padded']))
+    how = draw(st.sampled_from(['reverse', 'swap', 'fresh', 'fresh', 'fresh', 'padded', 'prefix']))
     if how == 'swap' and len(names) >= 2:
         new = list(draw(S.permutation(names)))
     elif how == 'padded':
@@ -44,6 +44,10 @@ def strategy_(draw):
         new = [p.format(n) for p, n in zip(pads, names)]
         if len(set(new)) < len(new):
             new = [f' {n}' for n in names]
+    elif how == 'prefix':
+        # names that are proper prefixes of one another, in a drawn order
+        fam = draw(st.sampled_from([['1', '10', '100', '1000'], ['PO', 'PO.2', 'PO.2x', 'PO.2xy'], ['a', 'ab', 'abc', 'abcd']]))
+        new = list(draw(S.permutation(fam)))[:len(names)] if len(names) <= 4 else [f'n{i}' for i in range(len(names))]
     elif how == 'reverse':
         fresh = sorted(draw(st.lists(st.sampled_from(TARGETS), min_size=len(names), max_size=len(names),
                                      unique=True)), reverse=True)
